@@ -48,6 +48,10 @@ class Quadrangle:
         if len(triangles) > 2:
             raise DegenerateGeometryError("A Quadrangle can only be defined with two triangles!")
 
+        if np.dot(triangles[0].normal, triangles[1].normal) < 0.5:
+            # the halves of a (possibly warped) block face are roughly coplanar; these two belong to different faces
+            raise DegenerateGeometryError("Two triangles that form a face are at an angle of more than 60 degrees!")
+
         common_points = self.get_common_points(triangles[0].points, triangles[1].points)
         if len(common_points) != 2:
             raise DegenerateGeometryError("Two triangles that form a face do not have 2 common points!")
